@@ -30,6 +30,7 @@ type Result struct {
 	Quant     bool    `json:"quantified,omitempty"`
 	ev        *Event
 	vc        *VC
+	Replay    *ReplayInfo `json:"-"`
 }
 
 func (vc *VC) scriptHead() string {
